@@ -535,6 +535,7 @@ def run_check(prop, tier, seed, replay=None):
             "model_files": list(prop.MODEL_FILES),
             "regenerated_from_source": sorted(prop.translate_outputs()) if hasattr(prop, "translate_outputs") else [],
             "generated_files_changed_this_run": gen_changed,
+            "functions_reconciled_with_pinned_source": sorted(set(getattr(__import__("translate_py"), "RECONCILED", []))),
             "evaluations": len(cases),
             "distinct_nontrivial": distinct_nontrivial,
             "rule": prop.RULE,
